@@ -13,5 +13,6 @@ mcPlanPairEnd == <<"match", "end", "match">>
 mcAlpha3 == {"a", "---", "/-/-/-/"}
 mcAlpha4 == {"", "a", "---", "/-/-/-/"}
 mcAlpha6 == {"", "a", "b", "---", "/-/-/-/", "[TestAB - 1]"}
-mcAlpha8 == {"", " ", "a", "b", "---", "/-/-/-/", "[TestAB - 1]", "--- "}
+\* incl. lines that END or START with a header text without being one (unanchored searches)
+mcAlpha8 == {"", "a", "see [TestAB - 1]", "---", "/-/-/-/", "[TestAB - 1]", "--- ", "[TestAB - 1] x"}
 =============================================================================
